@@ -128,3 +128,24 @@ Theorem C19_each_string_sent_exactly_once :
             (first_flags [] ks) (api_lookup rule size ks).
 Proof. exact api_lookup_sent_once. Qed.
 Print Assumptions C19_each_string_sent_exactly_once.
+
+(* ---- the rdflib serializers: what they write is, event for event, what their generic twins write (proofs/TwinRun.v), so the audit
+   holds of them as well -- a theorem, where it used to rest on the correspondence check ---- *)
+From PJ.Proofs Require Import EncRdflib EncRdflibQuads RdflibAudit.
+Theorem C19_rdflib_triples_stream_clean :
+  forall (o : soptions) (s s' : stream) (d : rdata) (evs : list tev),
+    stream_new TripleStream Rdflib o = Ok s -> cfg_ok o (st_logical s) -> fl_rows (st_flow s) = [] ->
+    rd_kind d <> RDataset -> stmts_rdf11 (rd_stmts d) = true -> stmts_nrm (rd_stmts d) ->
+    rdf_triples_stream_frames d s = (s', evs) -> raised evs = None ->
+    exists c, audit (flat_map f_rows (emitted evs)) = Some c /\ clean c.
+Proof. exact rdf_triples_stream_clean. Qed.
+Print Assumptions C19_rdflib_triples_stream_clean.
+
+Theorem C19_rdflib_quads_stream_clean :
+  forall (o : soptions) (s s' : stream) (d : rdata) (evs : list tev),
+    stream_new QuadStream Rdflib o = Ok s -> cfg_ok o (st_logical s) -> fl_rows (st_flow s) = [] ->
+    forallb spo_rdf11 (rd_stmts d) = true -> stmts_nrm (rd_stmts d) ->
+    rdf_quads_stream_frames d s = (s', evs) -> raised evs = None ->
+    exists c, audit (flat_map f_rows (emitted evs)) = Some c /\ clean c.
+Proof. exact rdf_quads_stream_clean. Qed.
+Print Assumptions C19_rdflib_quads_stream_clean.
